@@ -226,30 +226,46 @@ where
 
     async fn dump_in_memory(&mut self, blob_size: u64) -> Result<usize> {
         if let State::InMemory(headers) = &self.inner {
-            let headers = {
+            let data = {
                 let mut headers = headers.write().expect("rwlock");
-                std::mem::take(&mut *headers).headers
+                std::mem::take(&mut *headers)
             };
-            if headers.len() == 0 {
+            if data.headers.len() == 0 {
                 return Ok(0);
             }
-            debug!("blob index simple in memory headers {}", headers.len());
-            let (meta_buf, bloom_offset) = self.serialize_filters()?;
-            self.bloom_offset = Some(bloom_offset as u64);
-            let findex = FileIndex::from_records(
-                self.name.as_path(),
-                self.iodriver.clone(),
-                &headers,
-                meta_buf,
-                self.params.recreate_file,
-                blob_size,
-            )
-            .await?;
-            let size = findex.file_size() as usize;
-            self.inner = State::OnDisk(findex);
-            return Ok(size);
+            debug!("blob index simple in memory headers {}", data.headers.len());
+            let result = self.dump_headers(&data.headers, blob_size).await;
+            return match result {
+                Ok(findex) => {
+                    let size = findex.file_size() as usize;
+                    self.inner = State::OnDisk(findex);
+                    Ok(size)
+                }
+                Err(e) => {
+                    // In-memory headers are the only copy of the index until the dump has succeeded:
+                    // put them back, otherwise all records of the blob become invisible
+                    if let State::InMemory(headers) = &self.inner {
+                        *headers.write().expect("rwlock") = data;
+                    }
+                    Err(e)
+                }
+            };
         }
         Ok(0)
+    }
+
+    async fn dump_headers(&mut self, headers: &InMemoryIndex<K>, blob_size: u64) -> Result<FileIndex> {
+        let (meta_buf, bloom_offset) = self.serialize_filters()?;
+        self.bloom_offset = Some(bloom_offset as u64);
+        FileIndex::from_records(
+            self.name.as_path(),
+            self.iodriver.clone(),
+            headers,
+            meta_buf,
+            self.params.recreate_file,
+            blob_size,
+        )
+        .await
     }
 
     fn serialize_filters(&self) -> Result<(Vec<u8>, usize)> {
